@@ -41,9 +41,10 @@ ASSUMPTIONS = [
     "real signals are delivered by the kernel only in the thorough real-fork stream",
 ]
 RULE = ("scripts = (num_processes, cpu_count, max_restarts, fork results, wait results); enumeration of all maximal exit "
-        "histories over canonical fresh pids, each also with every fork position turned into the child side; random stream "
+        "histories over canonical fresh pids for n<=3 x budgets 0..3 (thorough: complete, incl. one unknown pid at every "
+        "position and every fork position turned into the child side; quick: all but the (3,3) block and the (3,2) variants); random stream "
         "adds raw statuses, unknown pids, pid reuse, None arguments; non-trivial = at least one known worker reaped")
-EXHAUSTIVE = {"quick": True, "thorough": True}
+EXHAUSTIVE = {"quick": False, "thorough": True}
 CLAUSES = {
     "each task id 0..n-1 is started once": "initial_trace + inv_initial",
     "restarted with the same id exactly when it exited abnormally": "restart_iff_abnormal, step_normal_forgets, step_abnormal_restarts_same_id, step_unknown_pid, classify_agrees_with_posix",
